@@ -860,7 +860,7 @@ async def _inbound_xfr(
     else:
         tcp_sock = cast(dns.asyncbackend.StreamSocket, s)
         tcpmsg = struct.pack("!H", len(wire)) + wire
-        await tcp_sock.sendall(tcpmsg, expiration)
+        await tcp_sock.sendall(tcpmsg, _timeout(expiration))
     with dns.xfr.Inbound(
         txn_manager, rdtype, serial, is_udp, bool(query.keyring)
     ) as inbound:
